@@ -169,7 +169,14 @@ def run_case(case, drv):
         # the listed order is what optim 0 visits; the other heuristics are sampled
         for optim in (range(9) if pi in heavy else [0]):
             def run():
-                g = IndexedGrammar(Rules([mk_rule(rules[i]) for i in perm], optim), spec["start"])
+                rs_ = Rules([mk_rule(rules[i]) for i in perm], optim)
+                if case["pseed"] % 5 == 0:
+                    # construction history: a production rule that is not in the grammar is added and removed again
+                    extra = ("S", "Zq", "f")
+                    if ["prod", "S", "Zq", "f"] not in rules:
+                        rs_.add_production(*extra)
+                        rs_.remove_production(*extra)
+                g = IndexedGrammar(rs_, spec["start"])
                 return g.is_empty(), g
             got = outcome(run, limit=5.0)
             res.evals += 1
